@@ -116,7 +116,9 @@ def standin(tier, seed):
     try:
         sim.run(40)
     except ValueError as e:
-        if "broadcast" in str(e):
+        # both messages come from ase's neighbour list being updated with internals sized for another atom count (which of the
+        # two appears depends on the random history)
+        if "broadcast" in str(e) or "cutoff radii" in str(e):
             V.add("stateful_calculator:unusable_after_rejected_exchange", {"driver": "GrandCanonical", "calculator": "EMT"}, repr(e))
         else:
             V.add("stateful_calculator:other", {"driver": "GrandCanonical", "calculator": "EMT"}, repr(e))
